@@ -55,6 +55,151 @@ pub mod h_names {
     }
 }
 
+#[cfg(feature = "c14")]
+pub mod h_c14 {
+    use super::*;
+    harnesses! {
+        #[kani::unwind(8)] text_4_nozone => p_text::from_str::<_, 4, false>;
+        #[kani::unwind(12)] text_4_zone => p_text::from_str::<_, 4, true>;
+        #[kani::unwind(9)] text_5_nozone => p_text::from_str::<_, 5, false>;
+        #[kani::unwind(270)] text_b_61_100 => p_text::from_str_boundary::<_, 61, 100>;
+        #[kani::unwind(270)] text_b_62_100 => p_text::from_str_boundary::<_, 62, 100>;
+        #[kani::unwind(270)] text_b_63_100 => p_text::from_str_boundary::<_, 63, 100>;
+        #[kani::unwind(270)] text_b_64_100 => p_text::from_str_boundary::<_, 64, 100>;
+        #[kani::unwind(270)] text_b_10_252 => p_text::from_str_boundary::<_, 10, 252>;
+        #[kani::unwind(270)] text_b_10_253 => p_text::from_str_boundary::<_, 10, 253>;
+        #[kani::unwind(270)] text_b_10_254 => p_text::from_str_boundary::<_, 10, 254>;
+        #[kani::unwind(270)] text_b_10_255 => p_text::from_str_boundary::<_, 10, 255>;
+        #[kani::unwind(270)] text_b_10_256 => p_text::from_str_boundary::<_, 10, 256>;
+        #[kani::unwind(120)] text_readback_zone => p_text::readback::<_, skel_gen::SkRAAaaa, true>;
+        #[kani::unwind(120)] text_readback_dot => p_text::readback::<_, skel_gen::SkRAAaaa, false>;
+    }
+}
+
+#[cfg(all(feature = "c14", feature = "thorough"))]
+pub mod h_c14_t {
+    use super::*;
+    harnesses! {
+        #[kani::unwind(10)] text_6_nozone => p_text::from_str::<_, 6, false>;
+        #[kani::unwind(14)] text_6_zone => p_text::from_str::<_, 6, true>;
+        #[kani::unwind(11)] text_7_nozone => p_text::from_str::<_, 7, false>;
+        #[kani::unwind(270)] text_b_10_250 => p_text::from_str_boundary::<_, 10, 250>;
+        #[kani::unwind(270)] text_b_10_251 => p_text::from_str_boundary::<_, 10, 251>;
+        #[kani::unwind(270)] text_b_62_253 => p_text::from_str_boundary::<_, 62, 253>;
+        #[kani::unwind(270)] text_b_63_255 => p_text::from_str_boundary::<_, 63, 255>;
+    }
+}
+
+#[cfg(feature = "c17")]
+pub mod h_c17 {
+    use super::*;
+    harnesses! {
+        #[kani::unwind(130)] pure_parse => p_pure::purity::<_, skel_gen::SkRMxSoa, skel_gen::SkRCnameChain, 0>;
+        #[kani::unwind(200)] pure_uncompress => p_pure::purity::<_, skel_gen::SkRCnameChain, skel_gen::SkRMxSoa, 1>;
+        #[kani::unwind(260)] pure_compress => p_pure::purity::<_, skel_gen::SkRNocompSoa, skel_gen::SkRNocomp2, 2>;
+        #[kani::unwind(260)] pure_rename => p_pure::purity::<_, skel_gen::SkRNocompSoa, skel_gen::SkRNocomp2, 3>;
+        #[kani::unwind(80)] pure_synth => p_pure::purity_synth;
+    }
+}
+
+#[cfg(feature = "c10")]
+pub mod h_c10 {
+    use super::*;
+    harnesses! {
+        #[kani::unwind(20)] ins_size_8178_ar => p_size::insert_size::<_, 8178, 3>;
+        #[kani::unwind(20)] ins_size_8179_ar => p_size::insert_size::<_, 8179, 3>;
+        #[kani::unwind(20)] ins_size_8192_an => p_size::insert_size::<_, 8192, 1>;
+        #[kani::unwind(20)] ins_size_8193_ns => p_size::insert_size::<_, 8193, 2>;
+        #[kani::unwind(20)] ins_size_9000_ar => p_size::insert_size::<_, 9000, 3>;
+        #[kani::unwind(20)] ins_size_12_an => p_size::insert_size::<_, 12, 1>;
+    }
+}
+
+#[cfg(feature = "c03")]
+pub mod h_c03 {
+    use super::*;
+    harnesses! {
+        #[kani::unwind(9)] names_readers_6 => p_names::readers::<_, 6>;
+    }
+}
+
+#[cfg(all(feature = "c03", feature = "thorough"))]
+pub mod h_c03_t {
+    use super::*;
+    harnesses! {
+        #[kani::unwind(11)] names_readers_8 => p_names::readers::<_, 8>;
+    }
+}
+
+#[cfg(feature = "c15")]
+pub mod h_c15 {
+    use super::*;
+    harnesses! {
+        #[kani::unwind(130)] #[kani::stub(dnssector::c_abi::throw_err, crate::p_cabi::throw_err_stub)] cabi_read_an => p_cabi::read::<_, skel_gen::SkRAAaaa, 1>;
+        #[kani::unwind(160)] #[kani::stub(dnssector::c_abi::throw_err, crate::p_cabi::throw_err_stub)] cabi_read_ar_opt => p_cabi::read::<_, skel_gen::SkROptmid, 3>;
+        #[kani::unwind(130)] #[kani::stub(dnssector::c_abi::throw_err, crate::p_cabi::throw_err_stub)] cabi_write_ttl_ip_0 => p_cabi::write::<_, skel_gen::SkRAAaaa, 0, 0>;
+        #[kani::unwind(130)] #[kani::stub(dnssector::c_abi::throw_err, crate::p_cabi::throw_err_stub)] cabi_write_ttl_ip_1 => p_cabi::write::<_, skel_gen::SkRAAaaa, 1, 0>;
+        #[kani::unwind(130)] #[kani::stub(dnssector::c_abi::throw_err, crate::p_cabi::throw_err_stub)] cabi_set_raw_name => p_cabi::write::<_, skel_gen::SkRAAaaa, 0, 1>;
+        #[kani::unwind(130)] #[kani::stub(dnssector::c_abi::throw_err, crate::p_cabi::throw_err_stub)] cabi_set_raw_name_bad => p_cabi::write::<_, skel_gen::SkRAAaaa, 0, 2>;
+        #[kani::unwind(130)] #[kani::stub(dnssector::c_abi::throw_err, crate::p_cabi::throw_err_stub)] cabi_set_name => p_cabi::write::<_, skel_gen::SkRAAaaa, 1, 3>;
+        #[kani::unwind(130)] #[kani::stub(dnssector::c_abi::throw_err, crate::p_cabi::throw_err_stub)] cabi_delete => p_cabi::write::<_, skel_gen::SkRAAaaa, 0, 4>;
+        #[kani::unwind(130)] #[kani::stub(dnssector::c_abi::throw_err, crate::p_cabi::throw_err_stub)] cabi_copyout => p_cabi::copyout::<_, skel_gen::SkRAAaaa>;
+        #[kani::unwind(260)] #[kani::stub(dnssector::c_abi::throw_err, crate::p_cabi::throw_err_stub)] cabi_rename => p_cabi::rename::<_, skel_gen::SkRNocompSoa>;
+    }
+}
+
+#[cfg(feature = "c13")]
+pub mod h_c13 {
+    use super::*;
+    harnesses! {
+        #[kani::unwind(40)] synth_build_a => p_synth::builders::<_, 0>;
+        #[kani::unwind(40)] synth_build_aaaa => p_synth::builders::<_, 1>;
+        #[kani::unwind(40)] synth_build_ns => p_synth::builders::<_, 2>;
+        #[kani::unwind(40)] synth_build_cname => p_synth::builders::<_, 3>;
+        #[kani::unwind(40)] synth_build_ptr => p_synth::builders::<_, 4>;
+        #[kani::unwind(40)] synth_build_mx => p_synth::builders::<_, 5>;
+        #[kani::unwind(60)] synth_build_soa => p_synth::builders::<_, 6>;
+        #[kani::unwind(40)] synth_build_ds => p_synth::builders::<_, 7>;
+        #[kani::unwind(40)] synth_build_txt => p_synth::builders::<_, 8>;
+        #[kani::unwind(300)] synth_txt_255 => p_synth::txt_chunks::<_, 255>;
+        #[kani::unwind(300)] synth_txt_256 => p_synth::txt_chunks::<_, 256>;
+        #[kani::unwind(60)] synth_tpl_ttl_digit => p_synth::template::<_, 0>;
+        #[kani::unwind(60)] synth_tpl_ttl_edge => p_synth::template::<_, 1>;
+        #[kani::unwind(60)] synth_tpl_octet_edge => p_synth::template::<_, 2>;
+        #[kani::unwind(60)] synth_tpl_separator => p_synth::template::<_, 3>;
+        #[kani::unwind(60)] synth_tpl_keyword_case => p_synth::template::<_, 4>;
+        #[kani::unwind(60)] synth_tpl_mx_pref_edge => p_synth::template::<_, 5>;
+        #[kani::unwind(60)] synth_tpl_txt_char => p_synth::template::<_, 6>;
+        #[kani::unwind(60)] synth_tpl_txt_escape => p_synth::template::<_, 7>;
+        #[kani::unwind(60)] synth_tpl_ds_hex => p_synth::template::<_, 8>;
+        #[kani::unwind(60)] synth_tpl_owner_char => p_synth::template::<_, 9>;
+        #[kani::unwind(80)] synth_tpl_soa_counter => p_synth::template::<_, 10>;
+        #[kani::unwind(12)] synth_arbitrary_3 => p_synth::arbitrary::<_, 3>;
+        #[kani::unwind(140)] synth_insert_a_an => p_synth::insert_text::<_, skel_gen::SkRAAaaa, 1, 0>;
+        #[kani::unwind(140)] synth_insert_mx_ns => p_synth::insert_text::<_, skel_gen::SkRAAaaa, 2, 5>;
+        #[kani::unwind(140)] synth_insert_txt_ar => p_synth::insert_text::<_, skel_gen::SkRAAaaa, 3, 8>;
+    }
+}
+
+#[cfg(all(feature = "c13", feature = "thorough"))]
+pub mod h_c13_t {
+    use super::*;
+    harnesses! {
+        #[kani::unwind(12)] synth_arbitrary_4 => p_synth::arbitrary::<_, 4>;
+        #[kani::unwind(12)] synth_arbitrary_5 => p_synth::arbitrary::<_, 5>;
+        #[kani::unwind(300)] synth_txt_0 => p_synth::txt_chunks::<_, 0>;
+        #[kani::unwind(300)] synth_txt_1 => p_synth::txt_chunks::<_, 1>;
+        #[kani::unwind(600)] synth_txt_510 => p_synth::txt_chunks::<_, 510>;
+        #[kani::unwind(600)] synth_txt_511 => p_synth::txt_chunks::<_, 511>;
+        #[kani::unwind(140)] synth_insert_aaaa_an => p_synth::insert_text::<_, skel_gen::SkRAAaaa, 1, 1>;
+        #[kani::unwind(140)] synth_insert_ns_ns => p_synth::insert_text::<_, skel_gen::SkRAAaaa, 2, 2>;
+        #[kani::unwind(140)] synth_insert_cname_an => p_synth::insert_text::<_, skel_gen::SkRAAaaa, 1, 3>;
+        #[kani::unwind(140)] synth_insert_ptr_ar => p_synth::insert_text::<_, skel_gen::SkRAAaaa, 3, 4>;
+        #[kani::unwind(160)] synth_insert_soa_ns => p_synth::insert_text::<_, skel_gen::SkRAAaaa, 2, 6>;
+        #[kani::unwind(140)] synth_insert_ds_an => p_synth::insert_text::<_, skel_gen::SkRAAaaa, 1, 7>;
+    }
+}
+
 pub mod gen {
     use super::*;
     include!("registry_gen.rs");
@@ -69,6 +214,42 @@ pub fn lookup_any(name: &str) -> Option<Body> {
     if let Some(b) = h_names::lookup(name) {
         return Some(b);
     }
+    #[cfg(feature = "c17")]
+    if let Some(b) = h_c17::lookup(name) {
+        return Some(b);
+    }
+    #[cfg(feature = "c10")]
+    if let Some(b) = h_c10::lookup(name) {
+        return Some(b);
+    }
+    #[cfg(feature = "c03")]
+    if let Some(b) = h_c03::lookup(name) {
+        return Some(b);
+    }
+    #[cfg(all(feature = "c03", feature = "thorough"))]
+    if let Some(b) = h_c03_t::lookup(name) {
+        return Some(b);
+    }
+    #[cfg(feature = "c15")]
+    if let Some(b) = h_c15::lookup(name) {
+        return Some(b);
+    }
+    #[cfg(feature = "c13")]
+    if let Some(b) = h_c13::lookup(name) {
+        return Some(b);
+    }
+    #[cfg(all(feature = "c13", feature = "thorough"))]
+    if let Some(b) = h_c13_t::lookup(name) {
+        return Some(b);
+    }
+    #[cfg(feature = "c14")]
+    if let Some(b) = h_c14::lookup(name) {
+        return Some(b);
+    }
+    #[cfg(all(feature = "c14", feature = "thorough"))]
+    if let Some(b) = h_c14_t::lookup(name) {
+        return Some(b);
+    }
     gen::lookup(name)
 }
 
@@ -81,6 +262,42 @@ pub fn lookup_sample_any(name: &str) -> Option<SampleBody> {
     if let Some(b) = h_names::lookup_sample(name) {
         return Some(b);
     }
+    #[cfg(feature = "c17")]
+    if let Some(b) = h_c17::lookup_sample(name) {
+        return Some(b);
+    }
+    #[cfg(feature = "c10")]
+    if let Some(b) = h_c10::lookup_sample(name) {
+        return Some(b);
+    }
+    #[cfg(feature = "c03")]
+    if let Some(b) = h_c03::lookup_sample(name) {
+        return Some(b);
+    }
+    #[cfg(all(feature = "c03", feature = "thorough"))]
+    if let Some(b) = h_c03_t::lookup_sample(name) {
+        return Some(b);
+    }
+    #[cfg(feature = "c15")]
+    if let Some(b) = h_c15::lookup_sample(name) {
+        return Some(b);
+    }
+    #[cfg(feature = "c13")]
+    if let Some(b) = h_c13::lookup_sample(name) {
+        return Some(b);
+    }
+    #[cfg(all(feature = "c13", feature = "thorough"))]
+    if let Some(b) = h_c13_t::lookup_sample(name) {
+        return Some(b);
+    }
+    #[cfg(feature = "c14")]
+    if let Some(b) = h_c14::lookup_sample(name) {
+        return Some(b);
+    }
+    #[cfg(all(feature = "c14", feature = "thorough"))]
+    if let Some(b) = h_c14_t::lookup_sample(name) {
+        return Some(b);
+    }
     gen::lookup_sample(name)
 }
 
@@ -90,6 +307,24 @@ pub fn all_names() -> Vec<&'static str> {
     v.extend_from_slice(h_c12::NAMES);
     #[cfg(any(feature = "c01", feature = "c02", feature = "c18"))]
     v.extend_from_slice(h_names::NAMES);
+    #[cfg(feature = "c17")]
+    v.extend_from_slice(h_c17::NAMES);
+    #[cfg(feature = "c10")]
+    v.extend_from_slice(h_c10::NAMES);
+    #[cfg(feature = "c03")]
+    v.extend_from_slice(h_c03::NAMES);
+    #[cfg(all(feature = "c03", feature = "thorough"))]
+    v.extend_from_slice(h_c03_t::NAMES);
+    #[cfg(feature = "c15")]
+    v.extend_from_slice(h_c15::NAMES);
+    #[cfg(feature = "c13")]
+    v.extend_from_slice(h_c13::NAMES);
+    #[cfg(all(feature = "c13", feature = "thorough"))]
+    v.extend_from_slice(h_c13_t::NAMES);
+    #[cfg(feature = "c14")]
+    v.extend_from_slice(h_c14::NAMES);
+    #[cfg(all(feature = "c14", feature = "thorough"))]
+    v.extend_from_slice(h_c14_t::NAMES);
     v.extend(gen::names());
     v
 }
